@@ -288,6 +288,16 @@ pub fn guard<T>(f: impl FnOnce() -> T) -> Result<T, Fault> {
     }
 }
 
+/// after an unguarded panic unwound out of a unit: the fault, if it originated inside calamine
+pub fn take_unguarded_calamine_fault() -> Option<Fault> {
+    let rec = LAST_PANIC.with(|p| p.borrow_mut().take())?;
+    if rec.loc.starts_with(REPO_SRC) || rec.bt.contains(REPO_SRC) {
+        Some(fault_from_panic(&rec))
+    } else {
+        None
+    }
+}
+
 pub fn normalise_msg(m: &str) -> String {
     let mut out = String::new();
     let mut prev_digit = false;
